@@ -50,7 +50,45 @@ def expand_list(c, lst):
     return out
 
 
-def canon(c, t, depth=0):
+def flatten_joins(t):
+    """"".join(items) is plain concatenation: a join with an EMPTY separator is rewritten to
+    the sequence of its items; a run inside it keeps a join of its own whose single item per
+    round is the concatenation of that round's items.  (So `"".join([a] + [op_j, x_j ...])`
+    and `a + "".join(op_j + x_j ...)` have one normal form.)"""
+    from .tmpl import tcat
+    out = []
+    for p in as_tmpl(t).parts:
+        if isinstance(p, Join):
+            sep_empty = not as_tmpl(p.sep).parts or all(isinstance(q, str) and q == "" for q in as_tmpl(p.sep).parts)
+            items = []
+            for x in p.items:
+                if isinstance(x, Seg):
+                    items.append(Seg(x.tag, x.length, x.jvar, [flatten_joins(i) for i in x.items], x.rev, x.cls_note))
+                else:
+                    items.append(flatten_joins(x))
+            if not sep_empty:
+                out.append(Join(p.sep, items))
+                continue
+            for x in items:
+                if isinstance(x, Seg):
+                    one = x if len(x.items) == 1 else Seg(x.tag, x.length, x.jvar, [tcat(*x.items)], x.rev, x.cls_note)
+                    out.append(Join("", [one]))
+                else:
+                    out.extend(as_tmpl(x).parts)
+        elif isinstance(p, Fn):
+            out.append(Fn(p.name, flatten_joins(p.base), p.args))
+        else:
+            out.append(p)
+    return Tmpl(out)
+
+
+def canon(c, t, depth=0, _flat=False):
+    if not _flat:
+        t = flatten_joins(t)
+    return _canon(c, t, depth)
+
+
+def _canon(c, t, depth=0):
     """flat tuple of tokens; holes/joins are structured tokens.  Bound round variables
     are renamed to J<depth> (alpha-normal form)."""
     out = []
@@ -78,6 +116,20 @@ def canon(c, t, depth=0):
                                     tuple(canon(c, ops.subst_j(i, x.jvar, J), depth + 1) for i in x.items)))
                     else:
                         its.append(("item", canon(c, x, depth)))
+                # P + P.join(x_0 .. x_{n-1}) with n >= 1 is (P + x_0) .. (P + x_{n-1}): the
+                # separator form and the prefix form of the same text get one normal form
+                if sep and len(its) == 1 and its[0][0] == "seg" and len(its[0][4]) == 1 and len(out) >= len(sep) \
+                        and tuple(out[-len(sep):]) == tuple(sep):
+                    seg_ = [x for x in items if isinstance(x, Seg)][0]
+                    try:
+                        nonempty = c.valid(zint(seg_.length) >= 1)[0]
+                    except SolverUnknown:
+                        nonempty = False
+                    if nonempty:
+                        del out[-len(sep):]
+                        kind_, ln_, rv_, J_, (one_,) = its[0]
+                        out.append(("join", (), ((kind_, ln_, rv_, J_, (tuple(sep) + tuple(one_),)),)))
+                        continue
                 out.append(("join", sep, tuple(its)))
     return tuple(out)
 
